@@ -150,6 +150,7 @@ func cmdCheck(args []string) {
 	run := runProperty(p, def, opts)
 	if opts.tier == "thorough" && os.Getenv("GOVC_REPO") == "" && os.Getenv("GOVC_NO_SELFTEST") == "" {
 		selftestResults = runSelftest(id)
+		neutralResults = runNeutralSelftest(id)
 	}
 	code := report(p, run, opts, diags, time.Since(t0))
 	os.Exit(code)
@@ -157,6 +158,7 @@ func cmdCheck(args []string) {
 
 // selftestResults: outcome of the must-fail selftest of the thorough tier (evidence only, never a verdict).
 var selftestResults []map[string]any
+var neutralResults []map[string]any
 
 // runSelftest re-runs this property's quick check against every stored seeded change of the property
 // (/verif/seeded/<name>/patch.diff applied to a scratch copy of /repo under the system temp directory, removed
@@ -235,6 +237,70 @@ func runSelftest(id string) []map[string]any {
 			}
 		} else {
 			res["result"] = "MISSED"
+		}
+		os.RemoveAll(tmp)
+	}
+	return out
+}
+
+// runNeutralSelftest: the counterpart of runSelftest for the stored semantics-preserving edits (/verif/neutral): the
+// quick check must stay silent on each of them. Evidence only.
+func runNeutralSelftest(id string) []map[string]any {
+	out := []map[string]any{}
+	metas, _ := filepath.Glob(filepath.Join(verifDir, "neutral", "*", "meta.json"))
+	sort.Strings(metas)
+	self, err := os.Executable()
+	if err != nil {
+		return out
+	}
+	deadline := time.Now().Add(10 * time.Minute)
+	for _, mf := range metas {
+		b, err := os.ReadFile(mf)
+		if err != nil {
+			continue
+		}
+		var meta struct {
+			Checks string `json:"checks"`
+		}
+		if json.Unmarshal(b, &meta) != nil || !contains(strings.Fields(meta.Checks), id) {
+			continue
+		}
+		res := map[string]any{"neutral_edit": filepath.Base(filepath.Dir(mf))}
+		out = append(out, res)
+		if time.Now().After(deadline) {
+			res["result"] = "skipped (selftest time budget used up)"
+			continue
+		}
+		tmp, err := os.MkdirTemp("", "govc-neutral-")
+		if err != nil {
+			res["result"] = "skipped (no scratch directory)"
+			continue
+		}
+		tree := filepath.Join(tmp, "tree")
+		if err := exec.Command("rsync", "-a", "--exclude", ".git", repoDir+"/", tree+"/").Run(); err != nil {
+			res["result"] = "skipped (copy failed)"
+			os.RemoveAll(tmp)
+			continue
+		}
+		ap := exec.Command("git", "apply", filepath.Join(filepath.Dir(mf), "patch.diff"))
+		ap.Dir = tree
+		if err := ap.Run(); err != nil {
+			res["result"] = "skipped (the edit does not apply to the tree under verification)"
+			os.RemoveAll(tmp)
+			continue
+		}
+		cmd := exec.Command(self, "check", id, "--tier", "quick")
+		cmd.Env = append(os.Environ(), "GOVC_REPO="+tree, "GOVC_OUT="+filepath.Join(tmp, "out"))
+		ob, _ := cmd.Output()
+		code := -1
+		if cmd.ProcessState != nil {
+			code = cmd.ProcessState.ExitCode()
+		}
+		res["exit"] = code
+		if code == 0 && !strings.Contains(string(ob), "\nVIOLATION ") && !strings.HasPrefix(string(ob), "VIOLATION ") {
+			res["result"] = "silent"
+		} else {
+			res["result"] = "ALARM"
 		}
 		os.RemoveAll(tmp)
 	}
@@ -591,6 +657,9 @@ func writeEvidence(run *propRun, opts checkOpts, claimed, discharged, violations
 	if selftestResults != nil {
 		cov["must_fail_selftest"] = selftestResults
 	}
+	if neutralResults != nil {
+		cov["must_pass_selftest"] = neutralResults
+	}
 	ev := map[string]any{
 		"property_id": def.ID,
 		"tier":        opts.tier,
@@ -666,6 +735,31 @@ func cmdBaseline(args []string) {
 			}
 		}
 		fmt.Printf("%s: %d obligations, %d discharged, %d slow\n", id, len(m), d, slow)
+	}
+	// names in scope at the loop headers of every function with loop invariants (for following renamed locals)
+	names := loadNames()
+	for _, id := range ids {
+		for _, fc := range propDefs[id].Funcs {
+			fn := p.Funcs[fc.Key]
+			c := p.Contracts[fc.Key]
+			if fn == nil || c == nil || (len(c.LoopInv) == 0 && len(c.IterInv) == 0) || len(fn.Blocks) == 0 {
+				continue
+			}
+			e := newEngine(p, fn)
+			fr := e.newFrame(fn, 1)
+			m := map[string]map[string]string{}
+			for _, li := range fr.loopList {
+				m[fmt.Sprint(li.ordinal)] = fr.headerNames(li)
+			}
+			for k, v := range fr.iterSiteNames() {
+				m[k] = v
+			}
+			names[fc.Key] = m
+		}
+	}
+	if nb, err := json.MarshalIndent(names, "", " "); err == nil {
+		os.MkdirAll(filepath.Join(verifDir, "baseline"), 0o755)
+		os.WriteFile(filepath.Join(verifDir, "baseline", "names.json"), nb, 0o644)
 	}
 	os.MkdirAll(filepath.Join(verifDir, "baseline"), 0o755)
 	b, _ := json.MarshalIndent(base, "", " ")
